@@ -184,6 +184,11 @@ ASSUME Family # "lint" \/ \A p \in LTPrograms(0) \cup PRPrograms(0) : ProgramOK(
 LoadCT == /\ c.k = "init" /\ Family = "cf"
           /\ \E t \in { p \in CTPrograms(0) : ProgramOK(p) }, tp \in E2ETapes \cup {Noisy}, off \in {0, 12} :
                 c' = [k |-> "e2epick", tree |-> t, inp |-> <<>>, tape |-> tp, off |-> off]
+ASSUME Family # "claw" \/ \A p \in CLPrograms(0) : ProgramOK(p) \/ (PrintT(<<"INEXPRESSIBLE", p>>) /\ FALSE)
+ASSUME Family # "claw" \/ CompoundIsExpanded            \* the law on the model: both forms run the same
+LoadCL == /\ c.k = "init" /\ Family = "claw"
+          /\ \E t \in CLPrograms(0), tp \in E2ETapes, off \in {0, 12} :
+                c' = [k |-> "e2epick", tree |-> t, inp |-> <<>>, tape |-> tp, off |-> off]
 LoadLint == /\ c.k = "init" /\ Family = "lint"
             /\ \E t \in { p \in LTPrograms(0) \cup PRPrograms(0) : ProgramOK(p) }, tp \in E2ETapes \cup {Noisy}, off \in {0, 12, 24} :
                   c' = [k |-> "e2epick", tree |-> t, inp |-> <<>>, tape |-> tp, off |-> off]
@@ -216,7 +221,7 @@ LoadOpen == /\ c.k = "init" /\ Family = "poetic"
 Init == c = [k |-> "init"]
 LoadFaults == /\ c.k = "init" /\ Family = "fault"
               /\ c' \in FaultCases(0)
-Load == /\ c.k = "init" /\ Family \notin {"fault", "cli", "e2e", "lint", "cf"}
+Load == /\ c.k = "init" /\ Family \notin {"fault", "cli", "e2e", "lint", "cf", "claw"}
         /\ \E t \in Trees(0), off \in NamingOffsets : c' = [k |-> "tree", tree |-> t, off |-> off]
 Vary == /\ c.k = "tree"
         /\ LET nm == Naming(c.off)
@@ -226,7 +231,7 @@ Vary == /\ c.k = "tree"
                 c' = [k |-> "text", tree |-> c.tree, naming |-> nm, tape |-> tp, text |-> r.text, lines |-> r.lines]
 Strip == /\ c.k = "text" /\ c.tape = <<>>          \* the canonical rendering also without its trailing line ends
          /\ c' = [c EXCEPT !.k = "stripped", !.text = StripTrailingNl(c.text)]
-Next == Load \/ LoadFaults \/ LoadOpen \/ LoadCli \/ LoadE2E \/ LoadLint \/ LoadCT \/ ExpandE2E \/ Vary \/ Strip
+Next == Load \/ LoadFaults \/ LoadOpen \/ LoadCli \/ LoadE2E \/ LoadLint \/ LoadCT \/ LoadCL \/ ExpandE2E \/ Vary \/ Strip
 
 PoeticDigits(t) ==      \* the digits the first statement's poetic literal spells (C11), when it has one
   LET s == t[1][1]
